@@ -198,7 +198,7 @@ def closure_value(clo, bindings):
 
 def _opt_state(x, env):
     """1 = Some/Ok-like present, 0 = absent, None = unknown, from a valuation of discr(x) / is_some(x) / is_ok(x)."""
-    sx = strip_sites(detry(x))
+    sx = strip_sites(detry_q(x))
     key = ('discr', sx)
     if key in env:
         return env[key]
@@ -672,6 +672,20 @@ def accept_sites(body, tb):
                 continue
         out.append((bi, si, t))
     return out
+
+
+def detry_q(t):
+    """Erase only the `?` operator: Try::branch(x).Continue.0 -> x  (payload projections `.Ok.0` / `.Some.0` are kept, so that
+    "x is Ok" and "the payload of x is Some" stay different questions)."""
+    if not isinstance(t, tuple) or not t:
+        return t
+    if t[0] == 'try':
+        return detry_q(t[1])
+    if t[0] == 'vfield' and t[2] == 'Continue':
+        a = m_call(t[1], name='branch', trait='Try')
+        if a is not None:
+            return detry_q(a[0])
+    return tuple(detry_q(x) if isinstance(x, tuple) else x for x in t)
 
 
 def detry(t):
@@ -1230,13 +1244,45 @@ def expected_call(F, name, *args, self_suffix='Envelope'):
 NONE = ('agg', 'core::option::Option', 'None', (), ())
 
 
+def pure_delegation(F, b):
+    """A body whose only way to fail is the failure of a call that is part of its success value: it adds no check of its own.
+    (`verify_signature_from` returns self but bails when the check fails: replacing the call by its value would drop the check.)"""
+    k = ('pure', id(F), b.path)
+    if k in _RET_CACHE:
+        return _RET_CACHE[k]
+    tb = TermBuilder(F, b)
+    rds = ret_defs(tb)
+    succ = [t for bi, si, t in rds if not (t[0] == 'agg' and t[2] in ('Err', 'None')) and m_call(t, name='from_residual') is None]
+    ok = len(succ) == 1
+    if ok:
+        sv = strip_sites(succ[0])
+        for bi, si, t in rds:
+            if t[0] == 'agg' and t[2] in ('Err', 'None') and (t[1].endswith('Result') or t[1].endswith('Option')):
+                ok = False      # an explicit refusal of its own
+            elif m_call(t, name='from_residual') is not None:
+                src = None
+                for x in walk(t):
+                    a = m_call(x, name='branch', trait='Try') if isinstance(x, tuple) and x and x[0] == 'call' else None
+                    if a is not None:
+                        src = strip_sites(a[0])
+                        break
+                if src is None or not contains(sv, lambda y: y == src):
+                    ok = False  # a `?` on something that does not flow into the result: a check
+        # a panic-guarded value (assert!, unwrap of a test) is not modelled: treat bodies with explicit panics as impure
+    _RET_CACHE[k] = ok
+    return ok
+
+
 def _expand_once_everywhere(F, t):
-    """All terms obtained from t by expanding exactly one crate-local call (at any position) one level."""
+    """All terms obtained from t by expanding exactly one crate-local call (at any position) one level. Only pure delegations are
+    expanded: a callee that can refuse on its own stays an opaque call, so that its check is part of the compared composition."""
     out = []
     if not isinstance(t, tuple) or not t:
         return out
     if t[0] == 'call':
-        e = inline(F, t, depth=1, strip=True)
+        c = CALLEES.get(t[1])
+        cb = F.by_hash.get(c.best_hash) if c is not None else None
+        e = inline(F, t, depth=1, strip=True) if (cb is not None and pure_delegation(F, cb)) else t
         if e != t:
             out.append(e)
     for i, x in enumerate(t):
